@@ -61,10 +61,10 @@ class Agent:
         self.proc.wait()
 
     # ---- the store's own verdict, by the library on the same directory (fresh process)
-    def library(self, user, pw, tag):
+    def library(self, user, pw, tag, cfg=None):
         pf = os.path.join(self.root, "pw-%s" % tag)
         open(pf, "wb").write(pw)
-        r = subprocess.run([self.drv, "-cfg", self.cfg, "-op", "auth", "-user", user.decode("latin-1") if isinstance(user, bytes) else user,
+        r = subprocess.run([self.drv, "-cfg", cfg or self.cfg, "-op", "auth", "-user", user.decode("latin-1") if isinstance(user, bytes) else user,
                             "-pwfile", pf], stdout=subprocess.PIPE, stderr=subprocess.PIPE)
         try:
             return json.loads(r.stdout.decode().strip().splitlines()[-1])["ok"]
@@ -275,18 +275,36 @@ def reload_leg(ctx, ag):
                 return True
             time.sleep(0.05)
         return False
+    # a third directory that holds alice (yet another password) and zoe but no administrator: a configuration naming it loads,
+    # fails the consistency check and must be refused as a whole - the agent goes on answering from the store it had
+    base3 = os.path.join(ag.root, "base3")
+    os.makedirs(base3, mode=0o700, exist_ok=True)
+    third_alice = b"alice in the directory without administrator"
+    open(os.path.join(base3, "alice.user"), "wb").write(fsfam.scrypt_record(third_alice).encode())
+    open(os.path.join(base3, "zoe.user"), "wb").write(fsfam.scrypt_record(zoe).encode())
+    probes.append((b"alice", third_alice))
+    inuse = os.path.join(ag.root, "store-in-use.yaml")
     try:
-        for stage in ("other-basedir", "back"):
-            open(ag.cfg, "w").write(old_cfg.replace(ag.base, base2) if stage == "other-basedir" else old_cfg)
+        for stage in ("other-basedir", "refused-no-admin", "back", "refused-no-admin-2"):
+            refused = stage.startswith("refused")
+            if refused:
+                open(ag.cfg, "w").write(old_cfg.replace(ag.base, base3))
+            else:
+                text = old_cfg.replace(ag.base, base2) if stage == "other-basedir" else old_cfg
+                open(ag.cfg, "w").write(text)
+                open(inuse, "w").write(text)
             ag.proc.send_signal(signal.SIGHUP)
-            marker = (b"zoe", zoe, True) if stage == "other-basedir" else (b"bob", RIGHT["bob"], True)
-            if not settle(*marker):
-                ctx.violation("C04", "reload:%s:frontends-answer-from-the-previous-store:sasl" % stage,
-                              "5 s after SIGHUP the saslauthd listener still denies %r, which the store configured now accepts" % marker[0])
+            if refused:
+                time.sleep(0.6)
+            else:
+                marker = (b"zoe", zoe, True) if stage == "other-basedir" else (b"bob", RIGHT["bob"], True)
+                if not settle(*marker):
+                    ctx.violation("C04", "reload:%s:frontends-answer-from-the-previous-store:sasl" % stage,
+                                  "5 s after SIGHUP the saslauthd listener still denies %r, which the store configured now accepts" % marker[0])
             for i, (user, pw) in enumerate(probes):
                 name_for = lambda t: user.split(b"@", 1)[0] if t == "ldap" else user
                 for t, fn in fns.items():
-                    want = ag.library(name_for(t), pw, "rl-%s-%d-%s" % (stage, i, t))
+                    want = ag.library(name_for(t), pw, "rl-%s-%d-%s" % (stage, i, t), cfg=inuse)
                     try:
                         got = fn(user, pw)
                     except Exception as ex:
@@ -297,7 +315,7 @@ def reload_leg(ctx, ag):
                     n += 1
                     if got != want:
                         ctx.violation("C04", "reload:%s:%s:%s" % (stage, t, "accepted-although-store-denies" if got else "denied-although-store-accepts"),
-                                      "after the reload (%s) user %r password %r..: the frontend says %s, store.Authenticate on the configuration on disk says %s" % (
+                                      "after the reload (%s) user %r password %r..: the frontend says %s, store.Authenticate on the configuration in use (the last one that passed the check) says %s" % (
                                           stage, user, pw[:16], got, want))
     finally:
         open(ag.cfg, "w").write(old_cfg)
